@@ -8,7 +8,7 @@ from ..source import get_source
 from ..grammar import get_grammar
 from ..emission import get_emission
 from ..runtime import get_runtime
-from ..finite import Evaluator, AV, Unknown, AbsRaise, const_av, truth
+from ..finite import evaluator_for, Evaluator, AV, Unknown, AbsRaise, const_av, truth
 from .common import check_plumbing
 
 INFO = {
@@ -253,7 +253,7 @@ def _guarded_nonempty(fn, node) -> bool:
 def r9_flatten(run: Run, rt):
     """_flatten_list unfolds its argument completely: every scalar at any nesting depth appears once, in order, whatever stands
     in front of a nested list (engine F on small nested shapes)"""
-    from ..finite import Evaluator, AV, Unknown, AbsRaise
+    from ..finite import evaluator_for, Evaluator, AV, Unknown, AbsRaise
 
     def leaf(i):
         return AV('str', text='other', val=f'L{i}')
@@ -275,7 +275,7 @@ def r9_flatten(run: Run, rt):
             cnt = [0]
             arg = build(shape, cnt)
             want = [f'L{i}' for i in range(1, cnt[0] + 1)]
-            ev = Evaluator(cp.members, max_depth=10)
+            ev = evaluator_for(cp, max_depth=10)
             construct = f'_flatten_list[{cp.label}]/{name}'
             try:
                 res = ev.call_method('_flatten_list', [arg])
@@ -332,6 +332,20 @@ def run(run: Run):
     _sx = _gsx()
     _bx(run, 'C11.R10', _c03x.r1, _sx, _ggx(_sx), _gex(_sx), _gcx(_sx))
     _bx(run, 'C11.R10', _c03x.r2, _sx, _gcx(_sx))
+    from . import c13 as _c13
+    from .common import borrow as _b13
+    run.rule('C11.R11', 'only Excel error values make an aggregate return an error; other text is ignored (shared with C13.R4)')
+    def _table_only(sub_run, rt_):
+        tmp = Run('tmp', run.tier, run.seed, quiet=True)
+        _c13.r4(tmp, rt_)
+        for o in tmp.obligations:
+            if o['verdict'] == 'holds' and o['construct'].startswith('error-table'):
+                sub_run.ok(o['rule'], o['construct'], o['fact'], loc=o['loc'])
+        for f in tmp.findings:
+            if f['sub'] in ('missing-error-value', 'not-an-excel-error'):
+                sub_run.bad(f['rule'], f['construct'], f['sub'], f['message'], loc=f['loc'])
+    _b13(run, 'C11.R11', _table_only, rt)
+    run.floor('C11.R11', 14)
     run.floor('C11.R10', 15)
     run.floor('C11.R9', 16)
     run.floor('C11.R8', 50)
